@@ -193,12 +193,57 @@ SESSION2 = ["n3", "p3:%s:9:1" % W.khex("x1"), "p3:%s:700:2" % W.khex("x2"), "d3:
 SESSION2_DB3 = "db3{%s=%s}" % (W.khex("x2"), W.vrepr(W.genval(700, 2)))
 
 
-def crash_cases(run, impl, wd, name, crc, ops, kills, model=None):
+def crash_state_t2(run, model, pred, name, crc, k, mdir, impl_wal_line):
+    """kill model + theorem instance: Proto.after_effects (first i effects of Proto.run on the traced calls) must be the
+    files the process killed before its k-th effect left behind (log: timestamps and segment checksums masked), and
+    where the traced history satisfies the hypotheses of C04_recover_is_prefix its conclusion must hold of the model's
+    own recovery of these files (a failure there is a defect of the framework, not of the library)"""
+    import zlib
+    fulldir, full, mode = pred
+    i = W.model_index(full["fx"], k, mode == "hook")
+    bufsz = (4096 if crc & 2 else 8 * 1024 * 1024) - 12
+    rc, out, err = vlib.run_lines(W.big_stack(model), "crash %s %d %d %d\n" % (fulldir, crc, bufsz, i), timeout=300)
+    f = W.fields(out[0]) if out and out[0].startswith("crash") else None
+    if not f:
+        run.dist("crash_state_model_no_answer")
+        if len(run.broken) < 6:
+            run.broken.append("T2 (kill model) %s kill %d: model gave no answer: %s %s" % (name, k, out[:1], err[-200:]))
+        return
+    wal = open(os.path.join(mdir, "db-wal"), "rb").read()
+    db = open(os.path.join(mdir, "db"), "rb").read()
+    real = {"log": W.masked_log_crc(wal), "disk": "%d:%08x" % (len(db), zlib.crc32(db) & 0xffffffff)}
+    diff = [x for x in ("log", "disk") if f.get(x) != real[x]]
+    fi = W.fields(impl_wal_line)
+    if f.get("rc") != fi.get("rc") or (fi.get("rc") == "0" and f.get("main") != fi.get("main")):
+        diff.append("recovery")
+    run.dist("crash_state_predicted_%s" % ("ok" if not diff else "differs"))
+    if diff and len(run.broken) < 6:
+        run.broken.append("T2 correspondence (Proto.after_effects = files after a kill) %s kill before effect %d (model effect %d): %s differ: "
+                          "model log=%s disk=%s rc=%s main=%s | killed process left log=%s disk=%s, its recovery %s" % (
+                              name, k, i, ",".join(diff), f.get("log"), f.get("disk"), f.get("rc"), f.get("main"), real["log"], real["disk"], impl_wal_line[:90]))
+    elif not diff:
+        run.cov["traces_validated_against_impl"] += 1
+    hyp = f.get("hyp", "")
+    run.dist("theorem_instance_%s" % ("hypotheses_hold" if hyp == "11111" else
+                                        "na_growth_in_operation" if len(hyp) == 5 and hyp[1] == "0" else "na_other_%s" % hyp))
+    if f.get("thm") not in ("ok", "n/a"):
+        run.dist("theorem_instance_fails")
+        if len(run.broken) < 6:
+            run.broken.append("C04_recover_is_prefix evaluated on a real trace does not hold (%s kill %d: %s) - the extracted model, the driver "
+                              "or the proof environment is broken" % (name, k, out[0][:200]))
+    elif f.get("thm") == "ok":
+        run.dist("theorem_instance_conclusion_ok")
+
+
+def crash_cases(run, impl, wd, name, crc, ops, kills, model=None, pred=None):
     """kills: list of (killat, rec_kill or None, cont, t2, cfg).  cont = continue into a second session after the
     recovering open: reopen, create db 3, put/del/sync, CLEAN close, reopen and dump.
     cfg = None (every session opens with the writer's options) or (r1, r2): option flags of the first recovering open
     (the one that may be killed at rec_kill) and of every later session (second recovering open, second session,
     final open) - the outcome of a recovery must not depend on the options of the process that performs it.
+    pred = None or (directory of the uncrashed run with events/eventsb/wal0/db0, its trace, effect numbering mode): for
+    the t2 kills the kernel's view after the kill is also predicted by Proto.after_effects over Proto.run (model command
+    `crash`) and compared with the files the killed process left; the same command evaluates C04_recover_is_prefix on it.
     Returns list of (trace of the killed run, line of the first complete recovering open, all lines, cont result)"""
     n = len(kills)
     nch = max(1, min(vlib.NCPU, n))
@@ -245,10 +290,12 @@ def crash_cases(run, impl, wd, name, crc, ops, kills, model=None):
                 diff = [k_ for k_ in ("rc", "main", "walsz") if fm.get(k_) != fi.get(k_)]
                 if fi.get("applied", "-") != "-" and fi.get("applied") != fm.get("applied"):
                     diff.append("applied")
+                if pred is not None:
+                    crash_state_t2(run, model, pred, name, crc, kills[ci][0], os.path.join(d, "m"), ls[3])
                 has_mark = b"\x7f\x00\x00\x00\x00\x00\x00\x00\x04\x00\x00\x00\x06\x00\x00\x00" in open(os.path.join(d, "m", "db-wal"), "rb").read()
                 run.dist("recovery_predicted_%s%s" % ("ok" if not diff else "differs", "_log_with_reset_mark" if has_mark else ""))
                 if diff and len(run.broken) < 6:
-                    run.broken.append("T2 correspondence (Replay.recover, crash inside an online backup) %s kill %d: %s differ: model %s | impl %s" % (
+                    run.broken.append("T2 correspondence (Replay.recover on the files of a crash) %s kill %d: %s differ: model %s | impl %s" % (
                         name, kills[ci][0], ",".join(diff), (outm + [""])[0][:120], ls[3][:120]))
                 else:
                     run.cov["traces_validated_against_impl"] += 1
@@ -314,7 +361,7 @@ def proto_t2(run, model, mode, d, crc, ops, full):
     return None
 
 
-def do_history(run, impl, wd, name, crc, ops, nfirst, nlater, rec_kills, corpus_kills=None, model=None, mode="wrap", ncont=12, ncross=0):
+def do_history(run, impl, wd, name, crc, ops, nfirst, nlater, rec_kills, corpus_kills=None, model=None, mode="wrap", ncont=12, ncross=0, ncrash_t2=4):
     rng = run.rng
     d, line, full = full_run(impl, wd, name, crc, ops)
     if line != "run exit=0" or full["nfx"] is None:
@@ -322,6 +369,7 @@ def do_history(run, impl, wd, name, crc, ops, nfirst, nlater, rec_kills, corpus_
         return None
     has_bkp = any(o[0] in "bB" for o in ops)
     if model and not has_bkp:
+        open(os.path.join(d, "eventsb"), "w").write("\n".join(W.proto_events_bracketed(ops, full)) + "\n")
         why = proto_t2(run, model, mode, d, crc, ops, full)
         run.dist("proto_trace_%s" % ("ok" if not why else "differs"))
         if why and len(run.broken) < 6:
@@ -380,6 +428,11 @@ def do_history(run, impl, wd, name, crc, ops, nfirst, nlater, rec_kills, corpus_
                 j = rng.below(i + 1)
                 inside[i], inside[j] = inside[j], inside[i]
             t2pts = set(inside[:14])
+        elif model and mode != "none":
+            # kill model + theorem instance (crash_state_t2): a few crash points per history, the end of the run,
+            # and points inside a checkpoint's replay when there is one
+            inrep = [j + 1 for j, e in enumerate(fx) if e[1] == "R" and j + 1 in set(pts)]
+            t2pts = set([N] + [rng.choice(pts) for _ in range(ncrash_t2)] + ([rng.choice(inrep)] if inrep else []))
         kills = [(k, None, k in conts, k in t2pts) for k in pts]
         for _ in range(rec_kills):
             kills.append((rng.choice(pts), rng.below(6), False))
@@ -394,7 +447,8 @@ def do_history(run, impl, wd, name, crc, ops, nfirst, nlater, rec_kills, corpus_
             r2 = rng.choice(alts + [crc])
             rk = rng.below(6) if rng.chance(1, 4) else None
             kills.append((k, rk, rk is None and rng.chance(1, 2), False, (r1, r2)))
-    res = crash_cases(run, impl, wd, name, crc, ops, kills, model=model)
+    res = crash_cases(run, impl, wd, name, crc, ops, kills, model=model,
+                      pred=(d, full, mode) if (model and not has_bkp and mode != "none") else None)
     for kk, (tr, recline, ls, contres) in zip(kills, res):
         k, rk = kk[0], kk[1]
         cfg = kk[4] if len(kk) > 4 else None
